@@ -120,7 +120,7 @@ func cmdRun(args []string) {
 	}
 	if os.Getenv("VERIF_DUMPVIOL") != "" {
 		for i, v := range hr.Violations {
-			data, _ := json.Marshal(map[string]interface{}{"vector": v.Vector, "bounds": e.bounds, "label": v.Label})
+			data, _ := json.Marshal(map[string]interface{}{"vector": v.Vector, "bounds": e.bounds, "label": v.Label, "sched": v.Sched})
 			os.WriteFile(fmt.Sprintf("%s.%d.json", os.Getenv("VERIF_DUMPVIOL"), i), data, 0o644)
 		}
 	}
